@@ -53,7 +53,9 @@ def value_classes():
                      ("gap", dt.datetime(2021, 3, 28, 2, 30, tzinfo=AMS)), ("none", None)],
         "path": [("posix_abs", "/a/b c/d.txt"), ("posix_rel", "a/b"), ("windows", ft.path.from_windows("c:\\a\\b.txt")),
                  ("unc", ft.path.from_windows("\\\\srv\\share\\x")), ("empty", ""), ("dot", "."), ("escape", "/x/\udcfe"), ("none", None)],
-        "command": [("posix", "ls -la 'a b'"), ("posix_noargs", "/bin/true"), ("windows", "c:\\x.exe /a b"), ("winenv", "%windir%\\x.exe"), ("none", None)],
+        "command": [("posix", "ls -la 'a b'"), ("posix_noargs", "/bin/true"), ("windows", "c:\\x.exe /a b"), ("winenv", "%windir%\\x.exe"),
+                    ("win_noexe", ft.command.from_windows(None)), ("posix_noexe", ft.command.from_posix(None)), ("win_explicit", ft.command.from_windows("x.exe /a")),
+                    ("posix_explicit", ft.command.from_posix("x.exe /a")), ("none", None)],
         "digest": [("md5", (MD5, None, None)), ("all", (MD5, SHA1, SHA256)), ("sha", (None, SHA1, SHA256)), ("none", None)],
         "net.ipaddress": [("v4", "1.2.3.4"), ("v4_zero", "0.0.0.0"), ("v4_max", "255.255.255.255"), ("v6", "2001:db8::1"),
                           ("v6_below_2_32", "::1"), ("v6_zero", "::"), ("v6_mapped", "::ffff:1.2.3.4"),
@@ -173,6 +175,33 @@ def fixed_streams():
         [A2(1, **kw), A("two", 2, **kw), A2(3, **kw), Z(**kw), A3("x", 4, "y", **kw), A3("x", 5, "z", **kw)],
         [X("1", "2", **kw), Xc("3", **kw), X("4", "5", **kw), Xc("6", **kw)],
     ]
+
+
+def churn_streams():
+    """descriptor CHURN: a long-lived writer is fed records whose (equal) descriptors are re-created for every job and
+    freed again, interleaved with records of brand-new types -- the objects come and go and their addresses are
+    recycled.  The entries are thunks: each record is created only when it is about to be written."""
+    import gc
+
+    from flow.record import RecordDescriptor
+
+    kw = dict(_generated=GEN)
+    out = []
+    for variant in range(2):
+        recs = []
+        for job in range(40):
+            def same(job=job):
+                D = RecordDescriptor("churn/same", [("string", "a"), ("varint", "n")])       # an equal copy, new object
+                return D("job%d" % job, job, **kw)
+
+            def new(job=job, variant=variant):
+                if variant:
+                    gc.collect()
+                N = RecordDescriptor("churn/new%d" % job, [("string", "b%d" % (job % 3))])    # a type never seen before
+                return N("x", **kw)
+            recs += [same, same, same, new] if job % 2 == 0 else [same, new]
+        out.append(recs)
+    return out
 
 
 def fixed_streams_intent():
